@@ -60,3 +60,20 @@ def parseBool (s : String) : Option Bool :=
   if s == "T" then some true else if s == "F" then some false else none
 
 end BreezyVerif
+
+namespace BreezyVerif
+
+partial def driverLoop (handle : List String → String) (h out : IO.FS.Stream) : IO Unit := do
+  let line ← h.getLine
+  if line.isEmpty then return ()
+  let l := (line.dropEndWhile (fun c => c == '\n' || c == '\r')).toString
+  out.putStrLn (handle (l.splitOn " "))
+  driverLoop handle h out
+
+/-- one request per line, one reply per line; fields separated by one space -/
+def runDriver (handle : List String → String) : IO Unit := do
+  let out ← IO.getStdout
+  driverLoop handle (← IO.getStdin) out
+  out.flush
+
+end BreezyVerif
